@@ -33,6 +33,7 @@ type logLine struct {
 	SeqApply int64  `json:"seq_app"`
 	SeqDone  int64  `json:"seq_done"`
 	Tag      string `json:"tag"`
+	Actor    int    `json:"caller"` // -1 = not attributed
 	Method   string `json:"method"`
 	Cas      int64  `json:"cas"`
 	Body     string `json:"body,omitempty"`
@@ -139,6 +140,18 @@ func (e *engine) linOps(ops []opRec) []porcupine.Operation {
 
 // ---------- the checks ----------
 
+// instanceOf strips the incarnation from a tag ("g3r2" -> "g3"): behind an
+// apricot server that was restarted, a client's call may be served by either
+// incarnation.
+func instanceOf(tag string) string {
+	if strings.HasPrefix(tag, "g") {
+		if i := strings.Index(tag, "r"); i > 0 {
+			return tag[:i]
+		}
+	}
+	return tag
+}
+
 func isCodeUnderTest(o opRec) bool { return o.Kind == "call" || o.Kind == "probe" }
 
 func (e *engine) check(id int64, log []consul.Req) {
@@ -151,7 +164,11 @@ func (e *engine) check(id int64, log []consul.Req) {
 		if r.Key != runKey {
 			continue
 		}
-		lines = append(lines, logLine{Seq: r.Seq, SeqApply: r.SeqApply, SeqDone: r.SeqDone, Tag: tagOf(r), Method: r.Method, Cas: r.Cas,
+		actor, attributed := e.reqActor[r.Seq]
+		if !attributed || (e.sch == nil && d.Share > 1) {
+			actor = -1 // free-running shared instance: requests cannot be told apart
+		}
+		lines = append(lines, logLine{Actor: actor, Seq: r.Seq, SeqApply: r.SeqApply, SeqDone: r.SeqDone, Tag: tagOf(r), Method: r.Method, Cas: r.Cas,
 			Body: r.Body, Applied: r.Applied, Result: r.Result, Index: r.Index, Value: r.Value, Fault: r.Fault})
 	}
 	var trace []string
@@ -219,7 +236,7 @@ func (e *engine) check(id int64, log []consul.Req) {
 		var seen []string
 		cause := "returned-number-never-written"
 		for _, l := range lines {
-			if l.Tag != o.Tag || l.Method != "PUT" || l.Seq < o.Call || l.Seq > o.Ret {
+			if instanceOf(l.Tag) != instanceOf(o.Tag) || l.Method != "PUT" || l.Seq < o.Call || l.Seq > o.Ret {
 				continue
 			}
 			seen = append(seen, fmt.Sprintf("PUT cas=%d %s -> %s %s", l.Cas, l.Body, l.Result, l.Fault))
@@ -362,6 +379,44 @@ func (e *engine) coverage(ops []opRec, lines []logLine, trace []string) {
 	c.Count("cas_answered_false", int64(nFalse))
 	c.Count("apply_then_sever", int64(nSeverAfterTrue))
 
+	// the same caller loses its CAS three or more times in a row (what exhausts a retry loop)
+	lostRuns := 0
+	run := map[int]int{}
+	for _, l := range lines {
+		if l.Actor < 0 || l.Actor >= d.W || l.Method != "PUT" || l.Cas < 0 || !l.Applied {
+			continue
+		}
+		if l.Result == "false" {
+			run[l.Actor]++
+			if run[l.Actor] == 3 {
+				lostRuns++
+			}
+		} else {
+			run[l.Actor] = 0
+		}
+	}
+	c.Count("callers_losing_3_cas_in_a_row", int64(lostRuns))
+	if d.Kind == "remote" {
+		c.Count("remote_histories", 1)
+		c.Count("remote_histories_"+d.Mode, 1)
+		c.Count("remote_calls_ok", int64(nOK))
+		c.Count("remote_calls_error", int64(nErr))
+		c.Count("remote_cas_answered_false", int64(nFalse))
+		c.Count("remote_apply_then_sever", int64(nSeverAfterTrue))
+		c.Count("remote_callers_losing_3_cas_in_a_row", int64(lostRuns))
+		if d.SrvRest != nil {
+			c.Count("remote_server_restarts", 1)
+			if d.SrvRest.Hard {
+				c.Count("remote_server_hard_stops", 1)
+			}
+		}
+		for _, o := range ops {
+			if isCodeUnderTest(o) && !o.OK && (strings.Contains(o.Err, "Unavailable") || strings.Contains(o.Err, "Canceled")) {
+				c.Count("remote_calls_failed_in_transport", 1)
+			}
+		}
+	}
+
 	// a foreign write landed between a worker's GET and its CAS
 	for i, l := range lines {
 		if !isWorkerTag(l.Tag) || l.Method != "PUT" || l.SeqApply == 0 {
@@ -418,7 +473,7 @@ func (e *engine) coverage(ops []opRec, lines []logLine, trace []string) {
 	}
 	if overlap {
 		c.Count("histories_with_overlapping_calls", 1)
-		c.Nontrivial(vlib.Hash(d.W, d.Share, d.Mode, d.Policy, d.Faults, len(d.Foreign), d.Preset < 0, kp, okB, errB, nFalse > 0, nSeverAfterTrue > 0))
+		c.Nontrivial(vlib.Hash(d.Kind, d.SrvRest != nil, d.W, d.Share, d.Mode, d.Policy, d.Faults, len(d.Foreign), d.Preset < 0, kp, okB, errB, nFalse > 0, nSeverAfterTrue > 0))
 	}
 	var sb strings.Builder
 	ap := append([]logLine(nil), lines...)
